@@ -411,7 +411,7 @@ func TestVerifReplay(t *testing.T) {
 	out, _ := cmd.CombinedOutput()
 	s := string(out)
 	if race {
-		return strings.Contains(s, "DATA RACE") || strings.Contains(s, "concurrent map"), s
+		return raceInLibrary(s) || strings.Contains(s, "concurrent map"), s
 	}
 	return strings.Contains(s, "VERIF-REPRODUCED"), s
 }
@@ -670,4 +670,36 @@ func runWitnesses(p *Program, prop, tier string, rs []*HarnessResult) {
 		}
 		fmt.Printf("  NOTE: native cross-validation incomplete (%d of %d sampled inputs ran): %s\n", seen, len(batch), msg)
 	}
+}
+
+// raceInLibrary: does the race detector's output contain a report in which at least one of the two conflicting accesses
+// is in library code? Reports whose two accesses are both in the harness's own files (its replay cursor, provider
+// state shared by the goroutines of the concurrent replay) say nothing about the library.
+func raceInLibrary(out string) bool {
+	blocks := strings.Split(out, "WARNING: DATA RACE")
+	for _, b := range blocks[1:] {
+		if i := strings.Index(b, "=================="); i >= 0 {
+			b = b[:i]
+		}
+		lines := strings.Split(b, "\n")
+		tops := 0
+		lib := false
+		for i := 0; i < len(lines); i++ {
+			l := strings.TrimSpace(lines[i])
+			if strings.HasPrefix(l, "Write at") || strings.HasPrefix(l, "Read at") || strings.HasPrefix(l, "Previous write at") || strings.HasPrefix(l, "Previous read at") {
+				// the top frame of this access: function line, then file line
+				if i+2 < len(lines) {
+					file := strings.TrimSpace(lines[i+2])
+					tops++
+					if !strings.Contains(file, "zz_verif_") {
+						lib = true
+					}
+				}
+			}
+		}
+		if tops > 0 && lib {
+			return true
+		}
+	}
+	return false
 }
